@@ -2,6 +2,7 @@ import OpenFecVerif.Proofs.DenseBits
 import OpenFecVerif.Gen.Popcount
 import OpenFecVerif.Proofs.Popcount
 import OpenFecVerif.Gen.Tab_of_hw8table
+import OpenFecVerif.Gen.Macros
 import OpenFecVerif.Props.C03
 /-!
 # C18 — dense GF(2) matrix and linear solver agree with exact bit-matrix algebra
@@ -116,6 +117,35 @@ theorem C18_hweight32_table (w : Nat) :
       + GF.entry 8 Gen.of_hw8table 0 (w / 65536 % 256) + GF.entry 8 Gen.of_hw8table 0 (w / 16777216 % 256) = popcount w := by
   rw [C18_hw8table _ (Nat.mod_lt _ (by decide)), C18_hw8table _ (Nat.mod_lt _ (by decide)),
     C18_hw8table _ (Nat.mod_lt _ (by decide)), C18_hw8table _ (Nat.mod_lt _ (by decide)), Pop.popcount_bytes]
+
+/-! ### the bit macros of of_matrix_dense.h, translated each run through harness/wrappers.c -/
+
+/-! the word-level primitives of the dense model ARE the library's macros (translated from the headers on every run) -/
+theorem C18_macro_getbit (w i : Nat) : Gen.vm_getbit w i = getbit w i := rfl
+theorem C18_macro_index (c : Nat) : Gen.vm_word_index c = c >>> 5 ∧ Gen.vm_bit_index c = c &&& 31 := ⟨rfl, rfl⟩
+
+theorem shl_facts : ∀ i, i < 32 →
+    Int.toNat ((CSem.toSigned 32 (((Int.toNat ((1 : Int) % 4294967296)) <<< i) % 4294967296)) % 4294967296) = 1 <<< i ∧
+    Int.toNat ((- (CSem.toSigned 32 (((Int.toNat ((1 : Int) % 4294967296)) <<< i) % 4294967296)) - 1) % 4294967296)
+      = W - 1 - (1 <<< i) % W ∧ (1 <<< i) < W := by decide +kernel
+
+theorem C18_macro_setbit1 (w i : Nat) (hw : w < W) (hi : i < 32) : Gen.vm_setbit1 w i = setbit1 w i := by
+  unfold Gen.vm_setbit1 setbit1
+  rw [(shl_facts i hi).1]
+  have h1 : w < 2 ^ 32 := hw
+  have h2 : 1 <<< i < 2 ^ 32 := (shl_facts i hi).2.2
+  have := Nat.or_lt_two_pow h1 h2
+  exact (Nat.mod_eq_of_lt this).symm
+
+theorem C18_macro_setbit0 (w i : Nat) (hi : i < 32) : Gen.vm_setbit0 w i = setbit0 w i := by
+  unfold Gen.vm_setbit0 setbit0
+  rw [(shl_facts i hi).2.1]
+
+theorem C18_macro_words_for (nc : Nat) (h : nc + 32 < W) : Gen.vm_words_for nc = (nc + 31) >>> 5 := by
+  unfold Gen.vm_words_for
+  unfold W at h
+  have : ((nc + 32) % 4294967296 + 4294967296 - 1) % 4294967296 = nc + 31 := by omega
+  rw [this]
 
 end Dense
 
